@@ -137,8 +137,7 @@ def colToks (c : ColumnInfo) : List Tok := identTok c.name :: typeToks (sqlType 
 def cellToks (F : FloatFmt) (r : Row) (c : ColumnInfo) : List Tok :=
   match r.get c.name with
   | none => [.word (Export.asc "null")]
-  | some .nil => [.word (Export.asc "null")]
-  | some v => if isJsonOid c.typID then [.str (writeJSONValue F v)] else valueToks F v
+  | some v => valueToks F c.typID v
 
 def rowToks' (F : FloatFmt) (cols : List ColumnInfo) (r : Row) : List Tok :=
   .op [40] :: (joinToks (cols.map (cellToks F r)) ++ [.op [41]])
@@ -163,10 +162,13 @@ def tableToks (F : FloatFmt) (t : TableDump) : List Tok :=
    .word (Export.asc "not"), .word (Export.asc "exists"), identTok t.name, .op [40]] ++
   (joinToks (t.columns.map colToks) ++ (.op [41] :: .op [59] :: insertToks F t))
 
-/-- what the theorems need of a table: non-empty names, column types that read as words -/
+/-- what the theorems need of a table: non-empty names without a NUL byte (pgread reads names with cstring(): a name ends at
+its first NUL), column types that read as words -/
 structure TableOK (t : TableDump) : Prop where
   name : t.name ≠ []
+  nameNul : (0 : UInt8) ∉ t.name
   cols : ∀ c ∈ t.columns, c.name ≠ [] ∧ TypeTextOK (sqlType c)
+  colsNul : ∀ c ∈ t.columns, (0 : UInt8) ∉ c.name
 
 /-! ### reading the pieces -/
 
@@ -179,12 +181,9 @@ theorem reads_cell (F : FloatFmt) (hS : FloatSqlOK F) (r : Row) (c : ColumnInfo)
   | none => exact reads_null
   | some v =>
     cases v with
-    | nil => exact reads_null
+    | nil => simp only [formatSQLValue, valueToks]; exact reads_null
     | bool _ | int _ | f64 _ | f32 _ | str _ | arr _ | obj _ =>
-      simp only [formatSQLValueT]
-      split
-      · exact (reads_quoteLiteral _).weaken closeB_strB
-      · exact reads_value F hS _
+      exact reads_value F hS _ c.typID c.typID (SqlArrayTypes.Pair.self c.typID)
 
 theorem commaSpace : Reads anyB [44, 32] [.op [44]] := by
   have := Reads.seq comma sp
@@ -440,22 +439,10 @@ theorem cell_cellToks (F : FloatFmt) (hF : ExportJson.FloatOK F) (r : Row) (c : 
     Spec.SqlExport.cell F r c (cellToks F r c ++ more) = some more := by
   have hnull : one (isWord "null") ([Tok.word (Export.asc "null")] ++ more) = some more := by
     simp only [List.cons_append, List.nil_append]; exact one_cons _ _ _ (isWord_asc "null")
-  have hjson : ∀ v : GoVal, Spec.Json.textAgrees F v (writeJSONValue F v) = true := by
-    intro v
-    simp only [Spec.Json.textAgrees, ExportJson.parse_value F hF v]
-    exact ExportJson.agrees_jsonOf F hF v
-  have hsame : ∀ x, Spec.SqlExport.isJsonType x = isJsonOid x := fun _ => rfl
   unfold Spec.SqlExport.cell cellToks
   cases r.get c.name with
   | none => exact hnull
-  | some v =>
-    cases v with
-    | nil => exact hnull
-    | bool _ | int _ | f64 _ | f32 _ | str _ | arr _ | obj _ =>
-      simp only [hsame]
-      split
-      · simp only [List.cons_append, List.nil_append]; exact one_cons _ _ _ (hjson _)
-      · exact value_valueToks F hF _ more
+  | some v => exact value_valueToks F hF v c.typID c.typID (SqlArrayTypes.Pair.self c.typID) more
 
 theorem rowToks_ok (F : FloatFmt) (hF : ExportJson.FloatOK F) (cols : List ColumnInfo) (hcols : cols ≠ []) (r : Row) (more : List Tok) :
     Spec.SqlExport.rowToks F cols r (rowToks' F cols r ++ more) = some more := by
